@@ -204,7 +204,12 @@ def check_C10(tier, nproc=None):
         c.add(Job('vH_C10_strings', [('tmpl', 'd', t), ('int', 2)], weight=500))
     for n, extra in (((6, 6),) if tier == 'quick' else ((6, 6), (7, 6))):
         c.add(Job('vH_C10_strings', [('bytescap', 'd', n, extra), ('int', 2)], weight=3 ** n, opts={'prefix': None}))
-    c.bounds = {'N_handlers': N, 'N_entry_points': NS, 'handler_offsets': 'free 64-bit value at every call'}
+    # generic decoding far beyond the nesting limit (limit scaled to 3): must return, with an error
+    for t in DEPTH_TREE_TEMPLATES:
+        for which in (0, 2):
+            c.add(Job('vH_C03', [('tmpl', 'd', t), ('int', which)], weight=4 ** 6, opts={'float_contract': True, 'scale_depth': 3}))
+    c.bounds = {'N_handlers': N, 'N_entry_points': NS, 'handler_offsets': 'free 64-bit value at every call',
+                'beyond_depth_limit': 'generic decoding of nesting templates with the limit scaled to 3'}
     c.must_reach = ['C10.handler-returned', 'C10.scalars-done', 'C10.strings-done']
     _std(c, ['every implicit Go runtime check (index, slice bounds, nil dereference, type assertion, division, make size) is an assertion of the encoding'])
     c.outside = ['inputs longer than the bounds', 'goroutine stack exhaustion', 'non-termination inside the Go runtime']
